@@ -213,7 +213,7 @@ PROPS.update({
         "witness": ("c11", 6000),
         "level": "proof", "design_ref": "DESIGN.md section 5 C11",
         "assumptions": _U9_ASSUME + ["the walk itself (a client loop calling next() and delete()) is not a function of the repository: it is verified as a client written in the repository's iteration idiom, with an uncontracted decide() standing for the caller's arbitrary choice"],
-        "level_text": "delete() through a cursor removes exactly the byte range of the record under the cursor from the (decompressed) packet, lowers exactly that section's count, clears the section offset when the count reaches zero, and turns the cursor into a tombstone (exact-state postcondition `deleted`); client_delete proves for every valid cursor of a record section: the call succeeds, object and cursor invariants hold again, the section then consists of the k records before the cursor in place and the n-k-1 after it moved up (byte-exact), and a second delete() through the same cursor returns an error leaving packet and cursor untouched; client_walk_delete proves the general statement, on compressed and pointer-free packets: the repository's walk idiom (`while let Some(mut item) = it { if decide(&item) { item.delete() } it = item.next() }`) with a `decide` that has NO contract (arbitrary subset, arbitrary answers on revisits) terminates (lexicographic decreases: records left, records not yet reached), and afterwards the section holds exactly the never-deleted records, byte for byte, in their original order, with a matching count (ghost index sequence `cur`, lemma_cut_recs), every survivor was yielded at least once, only members of the current section are ever yielded (so no deleted record again), and an emptied section reads as absent. client_delete_all_answers is the special case 'delete everything'. client_walk_delete(pp, authority, additional) is that proof for ALL THREE record sections: answer, authority and additional -- in the additional section the walk (into_iter_additional() + next()) is never given the OPT record, wherever it sits; next() is proved to skip nothing but the OPT record and to return None only when nothing but the OPT record is left, so the postcondition reads: the section holds exactly the never-deleted records (the OPT record among them) byte for byte in their original order, and every survivor other than the OPT record was yielded. NOT proved: the walk over the question (a packet without its question is rejected by the parser: open known finding on policy clauses) -- exercised by the differential replay over all subsets of up to 8 records",
+        "level_text": "delete() through a cursor removes exactly the byte range of the record under the cursor from the (decompressed) packet, lowers exactly that section's count, clears the section offset when the count reaches zero, and turns the cursor into a tombstone (exact-state postcondition `deleted`); client_delete proves for every valid cursor of a record section: the call succeeds, object and cursor invariants hold again, the section then consists of the k records before the cursor in place and the n-k-1 after it moved up (byte-exact), and a second delete() through the same cursor returns an error leaving packet and cursor untouched; client_walk_delete proves the general statement, on compressed and pointer-free packets: the repository's walk idiom (`while let Some(mut item) = it { if decide(&item) { item.delete() } it = item.next() }`) with a `decide` that has NO contract (arbitrary subset, arbitrary answers on revisits) terminates (lexicographic decreases: records left, records not yet reached), and afterwards the section holds exactly the never-deleted records, byte for byte, in their original order, with a matching count (ghost index sequence `cur`, lemma_cut_recs), every survivor was yielded at least once, only members of the current section are ever yielded (so no deleted record again), and an emptied section reads as absent. client_delete_all_answers is the special case 'delete everything'. client_walk_delete(pp, authority, additional) is that proof for ALL THREE record sections: answer, authority and additional -- in the additional section the walk (into_iter_additional() + next()) is never given the OPT record, wherever it sits; next() is proved to skip nothing but the OPT record and to return None only when nothing but the OPT record is left, so the postcondition reads: the section holds exactly the never-deleted records (the OPT record among them) byte for byte in their original order, and every survivor other than the OPT record was yielded. For the question, client_delete_question proves the only walk there is (one record): deleting the question through its cursor, on compressed and pointer-free packets, succeeds, leaves an object that satisfies its invariant for the new bytes (qdcount 0, offset_question absent, every later section moved up by exactly the length of the question: lemma_q_cut / lemma_q_deleted_wf), and a second delete through the same cursor is refused without touching anything -- the resulting bytes are a packet without a question, which the parser's policy rejects (open known finding on policy clauses). The differential replay runs the same walks over all subsets of up to 8 records",
         "technique": "Verus exact-state postcondition of delete() incl. the tombstone protocol + verified walk clients over the three record sections with an uncontracted decide() (termination by decreases); question walk by differential replay (stated)",
     },
 })
